@@ -2,6 +2,7 @@ import TexcraftModel.Lemmas.C04
 import TexcraftModel.Lemmas.C04AlgoLoose
 import TexcraftModel.Lemmas.C04AlgoBound2
 import TexcraftModel.Lemmas.C04AlgoForce
+import TexcraftModel.Lemmas.C04AlgoPasses
 
 /-!
 # C04 — property theorems (reference optimum, and the active-list algorithm)
@@ -40,6 +41,11 @@ the active nodes created along the way (stream `trace`).
 
 * `algo_force_always`   with `force_solution = true` the pass always returns breakpoints (no
                   hypothesis)
+
+* `passes_always_answer`, `passes_answer_optimal`   the pass driver (`passesOf`, `algoPasses` =
+                  `break_line` + `break_line_all_attempts`): some pass always answers; the answer is
+                  that of the first pass that has one, optimal for that pass's list and parameters,
+                  and the earlier passes had no feasible sequence
 
 **What the theorems do not say**: (1) the transcription works in `Int`, the real code in `i32`
 (agreement is checked per run inside `demBound x < AWFUL_BAD`; no theorem excludes overflow).
@@ -563,6 +569,47 @@ demerits keep the last node alive), so the `.expect("force_solution=true")` of
 theorem algo_force_always (x : Inst) (q : Int) : (algo x q true).isSome = true :=
   algo_force_some x q
 
+/-! ### The pass driver (`break_line` / `break_line_all_attempts`) -/
+
+/-- Some pass always answers: the last pass of `break_line_all_attempts` is forced, and a forced
+pass never returns `None` (`algo_force_always`), so the final `.expect("force_solution=true")`
+(lib.rs:489) cannot fail — for every list, parameters, looseness and hyphenator. -/
+theorem passes_always_answer (x : Inst) (pretol : Int) (pf : Glue) (hyph : List Item → List Item)
+    (q : Int) : (algoPasses q 1 (passesOf x pretol pf hyph)).isSome = true :=
+  algoPasses_some_of_forced q 1 _ (passesOf_forced x pretol pf hyph)
+
+/-- The instance of a pass lies inside the quantifier of `algo_optimal_dec`. -/
+def PassHyp (y : Inst) : Prop :=
+  discOK y = true ∧ monotone y = true ∧ 0 < y.p.widths.length ∧ demBound y < awfulBad
+
+/-- **C04 for the pass driver** (looseness 0): the answer of `break_line_all_attempts` is the
+answer of the first pass that has one. If that pass is not the forced one, its breakpoints are
+demerit-optimal for that pass's own list and parameters (`\pretolerance` and the unhyphenated
+list, or `\tolerance` and the hyphenated list), and every earlier pass had no feasible sequence at
+all for its parameters — each under the quantifier's restriction for the instance of that pass. -/
+theorem passes_answer_optimal (x : Inst) (pretol : Int) (pf : Glue) (hyph : List Item → List Item)
+    (j : Nat) (bs : List Nat) (h : algoPasses 0 1 (passesOf x pretol pf hyph) = some (j, bs)) :
+    ∃ i p, (passesOf x pretol pf hyph)[i]? = some p ∧ j = 1 + i ∧ algo p.x 0 p.force = some bs ∧
+      (p.force = false → PassHyp p.x → total p.x bs = dpBest p.x) ∧
+      ∀ i' p', i' < i → (passesOf x pretol pf hyph)[i']? = some p' → PassHyp p'.x →
+        dpBest p'.x = none := by
+  obtain ⟨i, p, hp, hj, hal, hprev⟩ := algoPasses_spec 0 1 _ j bs h
+  refine ⟨i, p, hp, hj, hal, ?_, ?_⟩
+  · intro hf ⟨hd, hm, hW, hB⟩
+    rw [hf] at hal
+    exact (algo_optimal_dec p.x hd hm hW hB).2 bs hal
+  · intro i' p' hlt hp' ⟨hd, hm, hW, hB⟩
+    have hnone := hprev i' p' hlt hp'
+    cases hf : p'.force with
+    | true =>
+      rw [hf] at hnone
+      have := algo_force_some p'.x 0
+      rw [hnone] at this
+      cases this
+    | false =>
+      rw [hf] at hnone
+      exact (algo_optimal_dec p'.x hd hm hW hB).1.mp hnone
+
 /-! Non-vacuity: the hypotheses hold on the concrete paragraph `ex1`, the algorithm answers,
 and on an instance without any feasible sequence it answers `none`. -/
 
@@ -585,6 +632,15 @@ def ex3 : Inst :=
     p := { widths := [12, 25], tolerance := 10000 } }
 example : discOK ex3 = true ∧ monotone ex3 = true ∧ demBound ex3 < awfulBad := by decide
 example : (algo ex3 0 false).isSome = true ∧ (algo ex3 0 false).bind (total ex3) = dpBest ex3 := by decide
+
+/-- The three passes on `box glue box glue box glue` at width 24: `\pretolerance` 5 fails, `\tolerance`
+200 answers in the second pass (TeX.2021.816 appended the paragraph end itself). -/
+def ex7 : Inst :=
+  { items := [.box 10, .glue ⟨5, 3, 0, 2⟩, .box 10, .glue ⟨5, 3, 0, 2⟩, .box 10, .glue ⟨5, 3, 0, 2⟩],
+    p := { widths := [24], tolerance := 200 } }
+example : algoPasses 0 1 (passesOf ex7 5 ⟨0, 65536, 1, 0⟩ id) = some (2, [3, 7]) := by decide
+example : (passesOf ex7 5 ⟨0, 65536, 1, 0⟩ id).all (fun p => decide (discOK p.x = true ∧ monotone p.x = true ∧
+    0 < p.x.p.widths.length ∧ demBound p.x < awfulBad)) = true := by decide
 
 /-- Finite stretch on the last line: two, three and four lines are feasible (optimum: two). -/
 def ex4 : Inst :=
